@@ -136,6 +136,7 @@ class VC:
             return None
         for reason in sorted(set(eng.unsupported)):
             self.undecided.append(Undecided(fnkey, 'UNSUPPORTED: %s' % reason))
+        self.entered = getattr(self, 'entered', set()) | eng.entered
         self.path_count += len(paths)
         for pi, p in enumerate(paths):
             tag = 'p' + '.'.join(str(d) for d in p.trail) if p.trail else 'p'
